@@ -1,6 +1,7 @@
 \* all pairs at a larger width: state laws only (no transitions), addends
 \* quantified in IQuantified for b = 0
 CONSTANTS
+  Sites <- SiteTable
   BITS = 11
 SPECIFICATION GenSpec
 INVARIANT ITypeOK
